@@ -417,3 +417,68 @@ func shareTransform(t *rapid.T, g *Grammar, o GenOpts) {
 	g.Rules[host] = &Expr{K: kind, Kids: alts}
 	g.number()
 }
+
+// aliasSkeleton builds the shape in which a cached result list is consumed several times at
+// one position: a nullable rule S with several results (so that its list has spare capacity
+// and positions coincide) used by consecutive elements of one sequence, each of which
+// extends the list: N -> Any(SeqOf(S, Any(S, y), Any(S, z)), body).
+func aliasSkeleton(t *rapid.T, g *Grammar, o GenOpts) {
+	term := func() *Expr {
+		return tm(o.Alphabet[rapid.IntRange(0, len(o.Alphabet)-1).Draw(t, "ach")])
+	}
+	small := func() *Expr {
+		n := rapid.IntRange(1, 3).Draw(t, "smalllen")
+		e := &Expr{K: KSeqOf}
+		for i := 0; i < n; i++ {
+			e.Kids = append(e.Kids, term())
+		}
+		return e
+	}
+	var body *Expr
+	switch rapid.IntRange(0, 4).Draw(t, "sbody") {
+	case 0:
+		body = ex(KSeqOf, ex(KOpt, term()), ex(KOpt, term()))
+	case 1:
+		body = ex(KAny, term(), &Expr{K: KEmpty}, ex(KSeqOf, term(), term()))
+	case 2:
+		body = ex(KAny, ex(KOpt, term()), ex(KSeqOf, term(), ex(KOpt, term())))
+	case 3:
+		body = ex(KOpt, ex(KAny, term(), ex(KSeqOf, term(), term())))
+	default:
+		body = ex(KSeqOf, ex(KOpt, term()), ex(KOpt, term()), ex(KOpt, term()))
+	}
+	for i := range g.Layer {
+		g.Layer[i]++
+	}
+	g.Rules = append(g.Rules, body)
+	g.Layer = append(g.Layer, 0)
+	s := len(g.Rules) - 1
+	host := rapid.IntRange(0, s-1).Draw(t, "ahost")
+	use := func() *Expr {
+		switch rapid.IntRange(0, 5).Draw(t, "ause") {
+		case 0:
+			return rf(s)
+		case 1:
+			return ex(KAny, rf(s), small())
+		case 2:
+			return ex(KAny, small(), rf(s))
+		case 3:
+			return ex(KOpt, rf(s))
+		case 4:
+			return ex(KAny, rf(s), small(), small())
+		default:
+			return ex(KAny, rf(s), term())
+		}
+	}
+	seq := &Expr{K: KSeqOf}
+	n := rapid.IntRange(2, 4).Draw(t, "auses")
+	for i := 0; i < n; i++ {
+		seq.Kids = append(seq.Kids, use())
+	}
+	if rapid.IntRange(0, 2).Draw(t, "aonly") == 0 {
+		g.Rules[host] = seq
+	} else {
+		g.Rules[host] = ex(KAny, seq, g.Rules[host])
+	}
+	g.number()
+}
